@@ -1451,9 +1451,13 @@ func c12AliasRule(c *core.Ctx, fresh map[*types.Func]bool) {
 		}
 	}
 	c.Note("C12 alias rule: uncopied accessors %v; %d tracked variables/fields/parameters, %d of them struct fields in other packages", accessors, len(a.vars), nFieldsOut)
-	c.ExpectAtLeast("accessors returning a cache slice/map uncopied", len(a.sources), 4)
-	c.ExpectAtLeast("call sites of those accessors in the module", nCalls, 8)
-	c.ExpectAtLeast("struct fields of other packages holding such an alias", nFieldsOut, 2)
+	// vacuity guards only: the rule found an accessor handing out the cache, a call site of one, and it
+	// followed an alias into a field of another package. How many there are is not part of the property
+	// (every use found is an obligation of its own above; a caller that stops asking for a slice it only
+	// took the length of, or an accessor that starts copying, removes obligations, it breaks nothing).
+	c.ExpectAtLeast("accessors returning a cache slice/map uncopied", len(a.sources), 1)
+	c.ExpectAtLeast("call sites of those accessors in the module", nCalls, 1)
+	c.ExpectAtLeast("struct fields of other packages holding such an alias", nFieldsOut, 1)
 }
 
 func (a *c12Alias) record(f *core.FuncInfo, what string, st core.Status, pos token.Pos, detail string) {
